@@ -7,22 +7,7 @@ verus! {
 //@lift src/estimator/loss.rs Loss::apply
 //@end
 
-// ---- the documented loss functions, written from the statement / the doc comments of `Loss`
-pub open spec fn rho(loss: L_Loss, z: real) -> real {
-    match loss {
-        L_Loss::Linear => z,
-        L_Loss::SoftL1(_) => 2real * (rsqrt(1real + z) - 1real),
-        L_Loss::Huber(_) => if z <= 1real { z } else { 2real * rsqrt(z) - 1real },
-        L_Loss::Cauchy(_) => rln(1real + z),
-        L_Loss::Arctan(_) => ratan(z),
-    }
-}
-pub open spec fn scale(loss: L_Loss) -> real {
-    match loss {
-        L_Loss::Linear => 1real,
-        L_Loss::SoftL1(s) => s, L_Loss::Huber(s) => s, L_Loss::Cauchy(s) => s, L_Loss::Arctan(s) => s,
-    }
-}
+//@include contracts/r/loss_common.rs
 proof fn lemma_z(r: real, f: real) requires f != 0real
     ensures (r * r) * (1real / (f * f)) == (r * r) / (f * f), (r * r) / (f * f) >= 0real,
             (f * f) * ((r * r) / (f * f)) == r * r, f * f > 0real
@@ -48,6 +33,7 @@ pub proof fn contract_loss_closed_form(loss: L_Loss, res: RArr, i: int)
         &&& (!(loss is Linear) && !(loss is Huber && z <= 1real) ==> c >= 0real)
     })
 {
+    contract_form_loss(loss, res, i);
     let f = scale(loss);
     let r = (res.at)(i);
     let z = (r * r) / (f * f);
@@ -89,38 +75,6 @@ pub proof fn contract_loss_closed_form(loss: L_Loss, res: RArr, i: int)
             let arg = (s * s) * ratan(z);
             assert(arg >= 0real) by(nonlinear_arith) requires s * s > 0real, ratan(z) >= 0real, arg == (s * s) * ratan(z);
             ax_sqrt_sq(arg);
-        }
-    }
-}
-/// zero residual => zero cost, for every loss function and every scaling factor (also 0)
-pub proof fn contract_loss_zero_residual(loss: L_Loss, res: RArr, i: int)
-    requires (res.at)(i) == 0real
-    ensures (apply(loss, res).at)(i) == 0real
-{
-    lemma_sqrt_unique(1real, 1real);
-    lemma_sqrt_unique(0real, 0real);
-    ax_ln_one();
-    ax_atan_zero();
-    match loss {
-        L_Loss::Linear => {}
-        L_Loss::SoftL1(s) => {
-            let inv = 1real / (s * s);
-            assert((0real * 0real) * inv + 1real == 1real) by(nonlinear_arith);
-            assert((s * s) * (2real * (1real - 1real)) == 0real) by(nonlinear_arith);
-        }
-        L_Loss::Huber(s) => {
-            let inv = 1real / (s * s);
-            assert((0real * 0real) * inv == 0real) by(nonlinear_arith);
-        }
-        L_Loss::Cauchy(s) => {
-            let inv = 1real / (s * s);
-            assert(1real + (0real * 0real) * inv == 1real) by(nonlinear_arith);
-            assert((s * s) * 0real == 0real) by(nonlinear_arith);
-        }
-        L_Loss::Arctan(s) => {
-            let inv = 1real / (s * s);
-            assert((0real * 0real) * inv == 0real) by(nonlinear_arith);
-            assert((s * s) * 0real == 0real) by(nonlinear_arith);
         }
     }
 }
